@@ -1,7 +1,6 @@
 // C15 — compression round trip for every algorithm, level and buffer; names round-trip
 #define VF_MAIN
-#include "../harness/vf.h"
-using namespace vf;
+#include "c15_common.h"
 
 struct Case {
   int algo = 2;   // mtbl_compression_type; 0 and unknown values must be refused
@@ -9,6 +8,7 @@ struct Case {
   int level = 0;
   std::vector<BStr> segs;  // buffer = concatenation
   std::string name;        // when non-empty: a name check instead ("name <string>")
+  bytes fuzz;              // when non-empty: a libFuzzer input, decoded by decode_fuzz15()
   bool valid() const {
     size_t tot = 0;
     for (auto &s : segs) tot += s.size();
@@ -22,6 +22,10 @@ struct Case {
   std::string ser() const {
     Out o;
     o << "property C15\n";
+    if (!fuzz.empty()) {
+      o << "fuzz " << hex(fuzz) << "\n";
+      return o.str();
+    }
     if (!name.empty()) o << "name " << hex(name) << "\n";
     else {
       o << "call algo=" << algo << " entry=" << entry << " level=" << level << "\n";
@@ -44,12 +48,12 @@ struct Case {
         }
       } else if (row[0] == "seg" && row.size() > 1) c.segs.push_back(BStr::parse(row[1]));
       else if (row[0] == "name" && row.size() > 1) c.name = unhex(row[1]);
+      else if (row[0] == "fuzz" && row.size() > 1) c.fuzz = unhex(row[1]);
     }
     return c;
   }
 };
 
-static const char *NAMES[] = {"none", "snappy", "zlib", "lz4", "lz4hc", "zstd"};
 
 static int gen_level15() {
   switch (weighted({25, 55, 20})) {
@@ -105,59 +109,17 @@ static Case gen_case() {
   return c;
 }
 
-// one compress/decompress round trip, in-process; false + message on violation
-static bool roundtrip(int algo, int entry, int level, const bytes &in, std::string &err) {
-  // input in an exact-size heap block
-  uint8_t *src = (uint8_t *)malloc(in.size() ? in.size() : 1);
-  if (!in.empty()) memcpy(src, in.data(), in.size());
-  uint8_t *out = nullptr;
-  size_t outn = 0;
-  mtbl_res cr = entry == 0 ? mtbl_compress((mtbl_compression_type)algo, src, in.size(), &out, &outn)
-                           : mtbl_compress_level((mtbl_compression_type)algo, level, src, in.size(), &out, &outn);
-  bool ok = true;
-  if (algo < 1 || algo > 5) {
-    if (cr == mtbl_res_success) {
-      err = "compression type " + std::to_string(algo) + " is not a compression algorithm but mtbl_compress reported success";
-      ok = false;
-      free(out);
-    }
-    uint8_t *o2 = nullptr;
-    size_t n2 = 0;
-    if (ok && mtbl_decompress((mtbl_compression_type)algo, src, in.size(), &o2, &n2) == mtbl_res_success) {
-      err = "mtbl_decompress accepted compression type " + std::to_string(algo);
-      ok = false;
-      free(o2);
-    }
-    free(src);
-    return ok;
-  }
-  if (cr == mtbl_res_success) {
-    // feed decompress exactly what compress returned, from an exact-size block
-    uint8_t *comp = (uint8_t *)malloc(outn ? outn : 1);
-    if (outn) memcpy(comp, out, outn);
-    free(out);
-    uint8_t *back = nullptr;
-    size_t backn = 0;
-    mtbl_res dr = mtbl_decompress((mtbl_compression_type)algo, comp, outn, &back, &backn);
-    if (dr != mtbl_res_success) {
-      err = "mtbl_decompress failed on the output of mtbl_compress" + std::string(entry ? "_level" : "") + " (" + NAMES[algo] + ", level " + std::to_string(level) +
-            ", input " + std::to_string(in.size()) + " bytes, compressed " + std::to_string(outn) + " bytes)";
-      ok = false;
-    } else {
-      if (backn != in.size() || (backn && memcmp(back, in.data(), backn) != 0)) {
-        err = "round trip through " + std::string(NAMES[algo]) + " level " + std::to_string(level) + " changed the data: " + std::to_string(in.size()) + " bytes in, " +
-              std::to_string(backn) + " bytes out";
-        ok = false;
-      }
-      free(back);
-    }
-    free(comp);
-  }
-  free(src);
-  return ok;
-}
-
 static void body(const Case &c, Result &r) {
+  if (!c.fuzz.empty()) {
+    int algo, entry, level;
+    bytes buf;
+    decode_fuzz15((const uint8_t *)c.fuzz.data(), c.fuzz.size(), algo, entry, level, buf);
+    std::string err;
+    if (!roundtrip(algo, entry, level, buf, err)) r.failf("%s", err.c_str());
+    r.nontrivial = true;
+    r.tag("from_fuzzer_artifact");
+    return;
+  }
   if (!c.name.empty()) {
     std::string n = c.name == "\x01" ? "" : c.name;
     mtbl_compression_type t = (mtbl_compression_type)99;
